@@ -28,12 +28,12 @@ IntsOf(tier) == LET pos == IF tier = "quick" THEN IntPosQuick ELSE IntPosFull
 F3 == FromInt(3)
 RatPosQuick ==
   {<<One, F3>>, <<One, Two>>, <<FromInt(4), Two>>, <<One, FromInt(10)>>, <<Add(P(64), One), P(64)>>,
-   <<Add(P(54), One), Two>>, <<One, P(1080)>>, <<F3, P(1076)>>}
+   <<Add(P(54), One), Two>>, <<One, P(1080)>>, <<F3, P(1076)>>, <<FromInt(7), F3>>}
 RatPosFull ==
   RatPosQuick \cup
   {<<FromInt(7), Two>>, <<FromInt(5), Two>>, <<F3, FromInt(10)>>, <<Two, F3>>, <<Add(P(64), One), F3>>, <<Ten(400), F3>>,
    <<Add(P(53), One), One>>, <<Add(P(55), One), P(55)>>, <<Add(P(54), F3), Two>>, <<One, P(1074)>>, <<FromInt(5), P(1077)>>,
-   <<One, P(1075)>>, <<Ten(30), FromInt(7)>>}
+   <<One, P(1075)>>, <<Ten(30), FromInt(7)>>, <<FromInt(13), F3>>, <<FromInt(7), FromInt(5)>>}
 RatsOf(tier) == LET pos == IF tier = "quick" THEN RatPosQuick ELSE RatPosFull
                 IN {NR(p[1], p[2]) : p \in pos} \cup {NR(Neg(p[1]), p[2]) : p \in pos}
 
@@ -48,6 +48,7 @@ FPosQuick ==
    Mk(0, MaxM, -53),                   \* 1 - ulp/2
    FromRat(One, FromInt(10)),          \* 0.1
    FromRat(One, F3),                   \* the double nearest 1/3
+   FromRat(FromInt(7), F3),            \* the double nearest 7/3
    Mk(0, One, -1),                     \* 0.5
    Mk(0, F3, -1),                      \* 1.5
    Mk(0, FromInt(5), -1),              \* 2.5
